@@ -95,24 +95,33 @@ structure Info where
   dataLen : Nat
   deriving Repr, DecidableEq
 
-/-- one iteration of `ClmFile::ReadAllWaveHeaders` -/
-def intake (c : Content) : Res Info :=
-  if c.len < riffHeaderSize then .err else
-  let h := c.read 0 riffHeaderSize
-  if h.take 4 ≠ tagRIFF ∨ h.drop 8 ≠ tagWAVE then .err else
-  -- `header.chunkSize + 8 != Length()`: the sum is formed in 32 bits
-  if u32 (decU32 (h.drop 4) + 8) ≠ c.len then .err else
+/-- the RIFF header test of `ReadAllWaveHeaders`: 12 bytes can be read, tags `RIFF` / `WAVE`, and
+    `header.chunkSize + 8 == Length()` with the sum formed in 32 bits -/
+def headerOk (c : Content) : Bool :=
+  decide (riffHeaderSize ≤ c.len) &&
+  ((c.read 0 riffHeaderSize).take 4 == tagRIFF) && ((c.read 0 riffHeaderSize).drop 8 == tagWAVE) &&
+  (u32 (decU32 ((c.read 0 riffHeaderSize).drop 4) + 8) == c.len)
+
+/-- `Read(waveFormats[i])` at `p` followed by `cbSize = 0` -/
+def readFormat (c : Content) (p : Nat) : Option Bytes :=
+  if p + formatSize ≤ c.len then some ((c.read p formatSize).take 16 ++ [0, 0]) else none
+
+/-- the two chunk searches of one `ReadAllWaveHeaders` iteration -/
+def intakeBody (c : Content) : Res Info :=
   match find c tagFmt with
   | .fuelOut => .hang
   | .none => .err
   | .at _ p =>
-    if p + formatSize ≤ c.len then
-      let fmt := (c.read p formatSize).take 16 ++ [0, 0]      -- waveFormats[i].cbSize = 0
+    match readFormat c p with
+    | none => .err
+    | some fmt =>
       match find c tagData with
       | .fuelOut => .hang
       | .none => .err
       | .at dl dp => .ok ⟨fmt, dp, dl⟩
-    else .err
+
+/-- one iteration of `ClmFile::ReadAllWaveHeaders` -/
+def intake (c : Content) : Res Info := if headerOk c then intakeBody c else .err
 
 /-- the loop of `ReadAllWaveHeaders`: files in order, first failure ends it -/
 def intakeAll : List Content → Res (List Info)
